@@ -36,6 +36,8 @@ import (
 	"github.com/nuts-foundation/nuts-node/network/transport/v2/gossip"
 	vtime "github.com/nuts-foundation/nuts-node/verifshim/vtime"
 	"google.golang.org/protobuf/proto"
+
+	"verif/fault"
 )
 
 // vc07Universe is a set of valid signed transactions over one root (index 0), in topological order.
@@ -93,6 +95,7 @@ type vc07Node struct {
 	name  string
 	path  string
 	db    stoabs.KVStore
+	kv    *fault.KV // the same store: every KV step of the node passes through the shared fault wrapper (bbolt file -> fault.KV -> dag.State / protocol)
 	state dag.State
 	p     *protocol
 	conn  *grpc.StubConnection // this node's connection TO the other node
@@ -132,14 +135,23 @@ type vc07Msg struct {
 //	            connection reports closed, and everything in flight in either direction is lost with the stream  [fault]
 //	reconnect(n) node n sees the stream re-established: connectionStateCallback(StateConnected) (gossip PeerConnected with
 //	            the current XOR/clock). Nothing travels while either side is disconnected.
+//	kvfail(m,at) message m is delivered while the STORAGE of the receiving node fails once: the at-th KV step (begin / put <shelf> /
+//	            delete / commit of a write transaction, read <shelf>) that the handler performs returns a database error  [fault]
+//	            (an environment deviation like drop/dup: afterwards the store works again and the peer simply offers the
+//	            transaction again). L is the structural label of the step (for signatures), filled in from the fault-free trace.
+//	cfail(n,j,at) only as the FIRST event of a history of a pair whose differing transactions are created after the connection:
+//	            the at-th KV step of node n's State.Add of its j-th created transaction fails (the creator sees the error) and the
+//	            creation is repeated at once; the aggregates are judged between the failure and the repetition       [fault]
 type vc07Event struct {
-	K string `json:"k"`
-	N int    `json:"n,omitempty"`
-	M int    `json:"m,omitempty"`
+	K  string `json:"k"`
+	N  int    `json:"n,omitempty"`
+	M  int    `json:"m,omitempty"`
+	At int    `json:"at,omitempty"`
+	L  string `json:"l,omitempty"`
 }
 
 func (e vc07Event) fault() bool {
-	return e.K == "drop" || e.K == "dup" || e.K == "lexpire" || e.K == "disc"
+	return e.K == "drop" || e.K == "dup" || e.K == "lexpire" || e.K == "disc" || e.K == "kvfail" || e.K == "cfail"
 }
 
 type vc07World struct {
@@ -153,6 +165,19 @@ type vc07World struct {
 	outcome func(string)
 	lastErr string
 	light   bool // see readSet
+	// storage seam: KV steps of the last handled delivery (reads numbered), whether the planned storage fault fired and where
+	lastTrace []fault.Step
+	lastFired bool
+	lastStep  fault.Step
+	// creation through State.Add after the connection: KV step trace per node and created transaction (fault-free build), and
+	// what the aggregates looked like between a failed creation and its repetition ("" = fine)
+	createTraces [2][][]fault.Step
+	buildClause  string
+	buildDetail  string
+	// message-size seam (see collect)
+	oversize     int
+	oversizeKind string
+	maxEnvelope  map[string]int
 }
 
 var vc07Base = time.Date(2030, 1, 1, 0, 0, 0, 0, time.UTC)
@@ -228,8 +253,44 @@ func vc07Build(t testing.TB, dir string, u *vc07Universe, tpl *vc07Template, lat
 
 // vc07BuildPeers: withDID gives both connections an authenticated node DID (transport.Peer.Key() then carries it).
 func vc07BuildPeers(t testing.TB, dir string, u *vc07Universe, tpl *vc07Template, late [2][]int, withDID bool) *vc07World {
+	return vc07BuildOpt(t, dir, u, tpl, late, vc07BuildOpts{withDID: withDID})
+}
+
+// vc07BuildOpts: pre[n] are added through State.Add BEFORE node n is connected (they predate the connection like the template's
+// transactions, but need not be part of the cached template file); createFault, when set, is a cfail event (see vc07Event).
+type vc07BuildOpts struct {
+	withDID     bool
+	pre         [2][]int
+	createFault *vc07Event
+}
+
+// armKV starts a numbered, recorded phase on node n's store (reads numbered too); at > 0 plans one storage error at that step.
+func (w *vc07World) armKV(n int, at int) {
+	kv := w.nodes[n].kv
+	kv.NumberReads(true)
+	kv.KeepTrace(true)
+	if at > 0 {
+		kv.Arm(fault.Plan{Mode: fault.Error, At: at})
+	} else {
+		kv.Arm(fault.Plan{})
+	}
+}
+
+// disarmKV ends the phase and returns its step trace and whether / where the planned fault fired.
+func (w *vc07World) disarmKV(n int) (trace []fault.Step, fired bool, at fault.Step) {
+	kv := w.nodes[n].kv
+	trace = kv.Trace()
+	fired, at = kv.Fired()
+	kv.Arm(fault.Plan{})
+	kv.KeepTrace(false)
+	kv.NumberReads(false)
+	return
+}
+
+func vc07BuildOpt(t testing.TB, dir string, u *vc07Universe, tpl *vc07Template, late [2][]int, opts vc07BuildOpts) *vc07World {
+	withDID := opts.withDID
 	vtime.Freeze(vc07Base)
-	w := &vc07World{u: u}
+	w := &vc07World{u: u, maxEnvelope: map[string]int{}}
 	peers := [2]transport.Peer{{ID: "nodeA", Address: "a.test:5555"}, {ID: "nodeB", Address: "b.test:5555"}}
 	if withDID {
 		peers[0].NodeDID, peers[0].Authenticated = did.MustParseDID("did:nuts:nodeA"), true
@@ -240,16 +301,24 @@ func vc07BuildPeers(t testing.TB, dir string, u *vc07Universe, tpl *vc07Template
 		if err := os.WriteFile(path, tpl.bytes[n], 0o600); err != nil {
 			t.Fatal(err)
 		}
-		db, err := bbolt.CreateBBoltStore(path, stoabs.WithNoSync(), stoabs.WithLockAcquireTimeout(time.Hour))
+		inner, err := bbolt.CreateBBoltStore(path, stoabs.WithNoSync(), stoabs.WithLockAcquireTimeout(time.Hour))
 		if err != nil {
 			t.Fatal(err)
 		}
+		kv := fault.Wrap(inner)
+		kv.KeepTrace(false)
+		var db stoabs.KVStore = kv
 		st, err := dag.NewState(db, dag.NewPrevTransactionsVerifier(), dag.NewTransactionSignatureVerifier(nil))
 		if err != nil {
 			t.Fatal(err)
 		}
 		if err := st.Configure(core.ServerConfig{}); err != nil {
 			t.Fatal(err)
+		}
+		for _, i := range opts.pre[n] {
+			if err := st.Add(context.Background(), u.Txs[i], u.Payloads[i]); err != nil {
+				t.Fatalf("pre-connection add tx %d: %v", i, err)
+			}
 		}
 		cfg := Config{GossipInterval: 3600 * 1000, DiagnosticsInterval: 0, PayloadRetryDelay: time.Hour}
 		p := New(cfg, did.DID{}, st, nil, nil, func() transport.Diagnostics { return transport.Diagnostics{} }, db).(*protocol)
@@ -260,15 +329,40 @@ func vc07BuildPeers(t testing.TB, dir string, u *vc07Universe, tpl *vc07Template
 		other := peers[1-n]
 		conn := grpc.NewStubConnection(other)
 		p.connectionList = &grpc.StubConnectionList{Conn: conn}
-		w.nodes[n] = &vc07Node{name: string(peers[n].ID), path: path, db: db, state: st, p: p, conn: conn, other: other}
+		w.nodes[n] = &vc07Node{name: string(peers[n].ID), path: path, db: db, kv: kv, state: st, p: p, conn: conn, other: other}
 		w.connect(n)
 	}
 	for n := 0; n < 2; n++ {
 		w.nodes[n].set, _ = w.readSet(n)
 	}
 	for n := 0; n < 2; n++ {
-		for _, i := range late[n] {
-			if err := w.nodes[n].state.Add(context.Background(), u.Txs[i], u.Payloads[i]); err != nil {
+		for j, i := range late[n] {
+			if cf := opts.createFault; cf != nil && cf.N == n && cf.M == j {
+				// the creation fails at KV step cf.At; the creator sees the error and repeats the creation at once
+				w.armKV(n, cf.At)
+				err := w.nodes[n].state.Add(context.Background(), u.Txs[i], u.Payloads[i])
+				_, fired, _ := w.disarmKV(n)
+				w.faults++
+				w.steps++
+				w.nodes[n].curValid, w.nodes[n].lightValid = false, false
+				if fired && err != nil {
+					// between failure and repetition: the node's aggregates must describe its stored set (the transaction is not in it)
+					if c, d := w.safety(); c != "" && w.buildClause == "" {
+						w.buildClause, w.buildDetail = c, "after the failed creation of #"+fmt.Sprint(i)+": "+d
+					}
+				}
+				if err == nil {
+					continue // the step was not one the creation depends on (or did not occur): the transaction exists
+				}
+				// repetition; a second failure leaves the transaction uncreated, which the liveness oracle reports
+				_ = w.nodes[n].state.Add(context.Background(), u.Txs[i], u.Payloads[i])
+				continue
+			}
+			w.armKV(n, 0)
+			err := w.nodes[n].state.Add(context.Background(), u.Txs[i], u.Payloads[i])
+			trace, _, _ := w.disarmKV(n)
+			w.createTraces[n] = append(w.createTraces[n], trace)
+			if err != nil {
 				t.Fatalf("late add tx %d: %v", i, err)
 			}
 		}
@@ -329,15 +423,40 @@ func (w *vc07World) collect() {
 			c.SentMsgs = nil // nothing travels while either side is disconnected
 			continue
 		}
-		for _, m := range c.SentMsgs {
-			raw, err := proto.MarshalOptions{Deterministic: true}.Marshal(m.(*Envelope))
+		msgs := c.SentMsgs
+		c.SentMsgs = nil
+		for _, m := range msgs {
+			env := m.(*Envelope)
+			// the stream enforces the configured message size on the REAL serialized size, as gRPC does (MaxSendMsgSize /
+			// MaxCallSendMsgSize = grpc.MaxMessageSizeInBytes): SendMsg of a larger message fails with ResourceExhausted, the
+			// message is never transmitted, and the failed SendMsg ends the stream (grpc-go finishes the client stream / writes the
+			// status on the server stream), so both nodes see the connection drop and everything else in flight is lost with it.
+			// This is the sender's own doing, not a fault of the environment: it is not charged to the deviation budget.
+			size := proto.Size(env)
+			kind := vc07Kind(env)
+			if size > w.maxEnvelope[kind] {
+				w.maxEnvelope[kind] = size
+			}
+			if size > grpc.MaxMessageSizeInBytes {
+				w.oversize++
+				w.oversizeKind = kind
+				if w.outcome != nil {
+					w.outcome("oversize-refused:" + kind)
+				}
+				for x := 0; x < 2; x++ {
+					if w.nodes[x].connected {
+						w.disconnect(x)
+					}
+				}
+				break
+			}
+			raw, err := proto.MarshalOptions{Deterministic: true}.Marshal(env)
 			if err != nil {
 				panic(err)
 			}
 			w.nextID++
 			w.pool = append(w.pool, &vc07Msg{ID: w.nextID, To: 1 - n, Raw: raw})
 		}
-		c.SentMsgs = nil
 	}
 }
 
@@ -365,9 +484,14 @@ func vc07ErrClass(err error) string {
 }
 
 // handle calls the real handler body for the message kind, synchronously.
-func (w *vc07World) handle(to int, raw []byte) {
+func (w *vc07World) handle(to int, raw []byte) { w.handleKV(to, raw, 0) }
+
+// handleKV: failAt > 0 makes the failAt-th KV step of this handler invocation fail (see kvfail).
+func (w *vc07World) handleKV(to int, raw []byte, failAt int) {
 	w.setClock()
 	n := w.nodes[to]
+	w.armKV(to, failAt)
+	defer func() { w.lastTrace, w.lastFired, w.lastStep = w.disarmKV(to) }()
 	n.curValid, n.lightValid = false, false
 	env := vc07Decode(raw)
 	ctx := n.p.ctx
@@ -434,6 +558,17 @@ func (w *vc07World) apply(e vc07Event) bool {
 		m.Copy = true
 		w.faults++
 		w.handle(m.To, m.Raw)
+	case "kvfail":
+		i, m := w.find(e.M, w.pool)
+		if m == nil {
+			return false
+		}
+		w.pool = append(append([]*vc07Msg{}, w.pool[:i]...), w.pool[i+1:]...)
+		w.faults++
+		w.handleKV(m.To, m.Raw, e.At)
+	case "cfail":
+		// executed by the build (vc07BuildOpts.createFault); as an event of a running history it does not exist
+		return false
 	case "tick":
 		w.setClock()
 		n := w.nodes[e.N]
